@@ -1237,6 +1237,16 @@ def r06z(ctx, rep):
                 if cur[0] == "rv" and cur[1]["rv"]["k"] == "agg":
                     break
                 break
+            if ok is None and o[0] == "const":
+                # `&Number::Fixnum(c)` written in place is promoted to a constant with its own body
+                m = re.search(r"promoted\[(\d+)\]$", o[1].get("text") or "")
+                pb = facts.promoted.get((f.path, int(m.group(1)))) if m else None
+                if pb is not None:
+                    aggs = [st["rv"] for _, _, st in pb.stmts() if st["rv"]["k"] == "agg" and (st["rv"].get("adt") or "").endswith("number::Number")]
+                    if len(aggs) == 1 and aggs[0].get("variant") == "Fixnum" and aggs[0]["ops"]:
+                        cc = op_const(aggs[0]["ops"][0])
+                        if cc is not None and cc.get("int", 0) != 0:
+                            ok = "constant divisor %s" % cc["int"]
             if ok is None:
                 for b2, ct in f.calls():
                     if callee(ct) == "marwood::number::Number::is_zero" and _bool_edge_dominates(f, b2, ct, bb, False):
